@@ -29,6 +29,22 @@ import (
 
 func init() { subcmds["c14"] = c14Main }
 
+// currency named in the amount of the next create / fund / withdraw transaction
+var c14Cur = "OLT"
+
+func c14Amount(v string) action.Amount { return curAmt(c14Cur, v) }
+func c14CurCode() int {
+	switch c14Cur {
+	case "OLT":
+		return 0
+	case "ETH":
+		return 1
+	case "":
+		return 3
+	}
+	return 2
+}
+
 type c14World struct {
 	w     *World
 	accts []keys.Address // account index -> address
@@ -84,6 +100,10 @@ func (cw *c14World) genesis() *GenesisSpec {
 			return governance.ProposalOption{InitialFunding: amt("1000000000"), FundingGoal: amt("10000000000"), FundingDeadline: c14FundDL[t], VotingDeadline: c14VDelta[t],
 				PassPercentage: c14Pass[t], PassedFundDistribution: p, FailedFundDistribution: f, ProposalExecutionCost: "executionCost"}
 		}
+		// two users really own a registered non-OLT currency
+		for _, u := range cw.w.Users[:2] {
+			st.Balances = append(st.Balances, consensus.BalanceState{Address: u.Addr, Currency: "ETH", Amount: *amt("50000000000")})
+		}
 		st.Governance.PropOptions = governance.ProposalOptionSet{ConfigUpdate: mk(0, d0, d1), CodeChange: mk(1, d1, d2), General: mk(2, d2, d0), BountyProgramAddr: "oneledgerBountyProgram"}
 	}
 	return g
@@ -122,6 +142,7 @@ type c14Op struct {
 	Fee      string
 	Ok       bool
 	Descr    string
+	Cur      int      // currency of the amount: 0 OLT, 1 ETH (registered), 2 unknown name, 3 empty
 	Bals     []string // reload: balances of the new genesis per account index
 }
 
@@ -142,6 +163,7 @@ type c14Obs struct {
 	Anom    bool
 	Applied []bool
 	Reload  bool
+	Flows   [][2]string // per proposal: OLT paid in, OLT refunded (measured from OLT balance deltas)
 }
 
 type c14Case struct {
@@ -173,6 +195,8 @@ type c14Run struct {
 	cfg      map[int][2]string // config proposal index -> update key, value
 	keyOwner map[string]int    // update key -> index of the last proposal created with it
 	applied  map[int]bool      // config proposals whose value has been seen in force
+	flowIn   map[int]*big.Int  // proposal index -> OLT paid in (measured)
+	flowRef  map[int]*big.Int  // proposal index -> OLT refunded (measured)
 }
 
 func (r *c14Run) env() int { return r.intern(r.envRaw()) }
@@ -360,6 +384,14 @@ func (r *c14Run) observe(m map[string]string) c14Obs {
 	}
 	for i := range r.pids {
 		o.Applied = append(o.Applied, r.applied[i])
+		fi, fr := r.flowIn[i], r.flowRef[i]
+		if fi == nil {
+			fi = new(big.Int)
+		}
+		if fr == nil {
+			fr = new(big.Int)
+		}
+		o.Flows = append(o.Flows, [2]string{fi.String(), fr.String()})
 	}
 	return o
 }
@@ -458,8 +490,34 @@ func (r *c14Run) memo() string { r.nonce++; return fmt.Sprintf("c14-%s-%d", r.c.
 // deliver a transaction and record the model operation
 func (r *c14Run) deliver(op c14Op, tx []byte, feeKind bool) c14Op {
 	e := r.envRaw()
+	op.Cur = 0
+	measured := op.Kind == "create" || op.Kind == "fund" || op.Kind == "withdraw"
+	who := op.Payer
+	if op.Kind == "withdraw" {
+		who = op.Ben
+	}
+	var before *big.Int
+	if measured {
+		op.Cur = c14CurCode()
+		before = r.olt(who)
+	}
 	res := r.rep.DeliverTx(tx)
 	op.Ok = res.Code == 0
+	if measured && op.Ok {
+		// OLT actually paid into / out of the proposal, from the OLT balance of the payer / beneficiary
+		d := new(big.Int).Sub(r.olt(who), before)
+		if who == op.Payer {
+			d.Add(d, new(big.Int).Mul(big.NewInt(res.GasUsed), big.NewInt(1000000000))) // the fee is not a contribution
+		}
+		m := r.flowRef
+		if op.Kind != "withdraw" {
+			m, d = r.flowIn, d.Neg(d)
+		}
+		if m[op.ID] == nil {
+			m[op.ID] = new(big.Int)
+		}
+		m[op.ID].Add(m[op.ID], d)
+	}
 	if op.Kind == "finalize" {
 		e.CfgFail = r.finFailed(r.rep.View())
 	}
@@ -488,7 +546,7 @@ func (r *c14Run) finFailed(view map[string]string) []int {
 func (r *c14Run) doRecreate(id, ty, proposer int, amount string, fdl, vdl int64, goal string, pass int64, cfg string, cfgValid bool) bool {
 	u := r.userKey(proposer)
 	cp := govact.CreateProposal{ProposalID: governance.ProposalID(r.pids[id]), ProposalType: c14Types[ty], Headline: "h", Description: "again", Proposer: u.Addr,
-		InitialFunding: oltAmt(amount), FundingDeadline: fdl, FundingGoal: amt(goal), VotingDeadline: vdl, PassPercentage: int(pass), ConfigUpdate: cfg}
+		InitialFunding: c14Amount(amount), FundingDeadline: fdl, FundingGoal: amt(goal), VotingDeadline: vdl, PassPercentage: int(pass), ConfigUpdate: cfg}
 	tx := mkTx(action.PROPOSAL_CREATE, cp, GAS, r.memo(), u)
 	op := r.deliver(c14Op{Kind: "create", ID: id, Ty: ty, A: proposer, Amt: amount, Fdl: fdl, Vdl: vdl, Goal: goal, Pass: pass, CfgValid: cfgValid, Payer: proposer,
 		Descr: fmt.Sprintf("RE-CREATE the id of p%d: type %d by %s amount %s fdl %d vdl %d", id, ty, r.cw.names[proposer], amount, fdl, vdl)}, tx, true)
@@ -501,6 +559,16 @@ func (r *c14Run) recreateLive(id, proposer int, h int64) bool {
 	must(err)
 	o := po.General
 	return r.doRecreate(id, 2, proposer, o.InitialFunding.String(), h+3, h+3+o.VotingDeadline, o.FundingGoal.String(), int64(o.PassPercentage), "", true)
+}
+
+// OLT balance of a tracked account in the deliver state (what the next transaction sees)
+func (r *c14Run) olt(ai int) *big.Int {
+	x := new(big.Int)
+	v, err := r.rep.A.VerifDeliver().Get(storage.StoreKey("b_" + r.cw.accts[ai].String() + "_OLT"))
+	if err == nil && len(v) > 0 {
+		x.SetString(jsonAmt(string(v)), 10)
+	}
+	return x
 }
 
 func (r *c14Run) balOf(view map[string]string, ai int) *big.Int {
@@ -539,7 +607,7 @@ func (r *c14Run) doCreate(ty, proposer int, amount string, fdl, vdl int64, goal 
 	hexid := string(propID(fmt.Sprintf("c14-%s-%d", r.c.Name, id)))
 	u := r.userKey(proposer)
 	cp := govact.CreateProposal{ProposalID: governance.ProposalID(hexid), ProposalType: c14Types[ty], Headline: "h", Description: "d", Proposer: u.Addr,
-		InitialFunding: oltAmt(amount), FundingDeadline: fdl, FundingGoal: amt(goal), VotingDeadline: vdl, PassPercentage: int(pass), ConfigUpdate: cfg}
+		InitialFunding: c14Amount(amount), FundingDeadline: fdl, FundingGoal: amt(goal), VotingDeadline: vdl, PassPercentage: int(pass), ConfigUpdate: cfg}
 	tx := mkTx(action.PROPOSAL_CREATE, cp, GAS, r.memo(), u)
 	op := r.deliver(c14Op{Kind: "create", ID: id, Ty: ty, A: proposer, Amt: amount, Fdl: fdl, Vdl: vdl, Goal: goal, Pass: pass, CfgValid: cfgValid, Payer: proposer,
 		Descr: fmt.Sprintf("create p%d type %d by %s amount %s fdl %d vdl %d cfg %q", id, ty, r.cw.names[proposer], amount, fdl, vdl, cfg)}, tx, true)
@@ -558,7 +626,7 @@ func (r *c14Run) doCreate(ty, proposer int, amount string, fdl, vdl int64, goal 
 
 func (r *c14Run) doFund(id, funder int, amount string) {
 	u := r.userKey(funder)
-	tx := txPropFundRaw(u, r.pids[id], oltAmt(amount), r.memo())
+	tx := txPropFundRaw(u, r.pids[id], c14Amount(amount), r.memo())
 	r.deliver(c14Op{Kind: "fund", ID: id, A: funder, Amt: amount, Payer: funder, Descr: fmt.Sprintf("fund p%d by %s %s", id, r.cw.names[funder], amount)}, tx, true)
 }
 
@@ -595,7 +663,7 @@ func (r *c14Run) doCancel(id, who int) {
 
 func (r *c14Run) doWithdraw(id, funder int, amount string, ben int) {
 	u := r.userKey(funder)
-	tx := mkTx(action.PROPOSAL_WITHDRAW_FUNDS, govact.WithdrawFunds{ProposalID: governance.ProposalID(r.pids[id]), Funder: u.Addr, WithdrawValue: oltAmt(amount), Beneficiary: r.cw.accts[ben]}, GAS, r.memo(), u)
+	tx := mkTx(action.PROPOSAL_WITHDRAW_FUNDS, govact.WithdrawFunds{ProposalID: governance.ProposalID(r.pids[id]), Funder: u.Addr, WithdrawValue: c14Amount(amount), Beneficiary: r.cw.accts[ben]}, GAS, r.memo(), u)
 	r.deliver(c14Op{Kind: "withdraw", ID: id, A: funder, Amt: amount, Ben: ben, Payer: funder, Descr: fmt.Sprintf("withdraw p%d funder %s %s to %s", id, r.cw.names[funder], amount, r.cw.names[ben])}, tx, true)
 }
 
@@ -745,6 +813,16 @@ func (r *c14Run) randomOp(g *c14Gen, h int64) {
 		return c[rnd.Intn(len(c))]
 	}
 	k := rnd.Intn(100)
+	if rnd.Intn(20) == 0 && k < 84 {
+		// the amount of this create / fund / withdraw is denominated in another currency (users 0, 1 own ETH)
+		cur := []string{"ETH", "ETH", "XYZ", ""}[rnd.Intn(4)]
+		old := c14Cur
+		c14Cur = cur
+		defer func() { c14Cur = old }()
+		if cur == "ETH" && rnd.Intn(2) == 0 {
+			users = []int{0, 1}
+		}
+	}
 	switch {
 	case (k < 12 || np == 0) && r.prod:
 		r.randomCreateProd(g, h)
@@ -974,6 +1052,10 @@ func (r *c14Run) relaunch() {
 			a, _ := balance.NewAmountFromString(jsonAmt(v), 10)
 			bals = append(bals, consensus.BalanceState{Address: r.cw.accts[ai], Currency: "OLT", Amount: *a})
 		}
+		if v, ok := dump["b_"+r.cw.accts[ai].String()+"_ETH"]; ok {
+			a, _ := balance.NewAmountFromString(jsonAmt(v), 10)
+			bals = append(bals, consensus.BalanceState{Address: r.cw.accts[ai], Currency: "ETH", Amount: *a})
+		}
 	}
 	spec := r.cw.genesis()
 	base := spec.Customize
@@ -1006,7 +1088,7 @@ func c14NewRun(name string) *c14Run {
 	cw := c14NewWorld()
 	rep := NewReplica(cw.genesis(), ReplicaOpts{NodeVal: cw.w.Vals[0].Val})
 	rep.InitChain()
-	r := &c14Run{cw: cw, rep: rep, c: &c14Case{Name: name, Notes: map[string]interface{}{}}, envIdx: map[string]int{}, cfg: map[int][2]string{}, keyOwner: map[string]int{}, applied: map[int]bool{}}
+	r := &c14Run{cw: cw, rep: rep, c: &c14Case{Name: name, Notes: map[string]interface{}{}}, envIdx: map[string]int{}, cfg: map[int][2]string{}, keyOwner: map[string]int{}, applied: map[int]bool{}, flowIn: map[int]*big.Int{}, flowRef: map[int]*big.Int{}}
 	o := r.observe(rep.View())
 	r.c.Init, r.c.Pool = o.Bal, o.Pool
 	// warm-up: the validator status records (active flags) that the voting snapshot reads are only
@@ -1028,6 +1110,9 @@ func (r *c14Run) finish() *c14Case {
 		}
 		for len(r.c.Obs[i].Applied) < r.c.NP {
 			r.c.Obs[i].Applied = append(r.c.Obs[i].Applied, false)
+		}
+		for len(r.c.Obs[i].Flows) < r.c.NP {
+			r.c.Obs[i].Flows = append(r.c.Obs[i].Flows, [2]string{"0", "0"})
 		}
 	}
 	r.rep.Close()
@@ -1434,6 +1519,55 @@ func c14ScriptRelaunch() *c14Case {
 	})
 }
 
+func c14WithCur(cur string, f func()) {
+	old := c14Cur
+	c14Cur = cur
+	defer func() { c14Cur = old }()
+	f()
+}
+
+// amounts denominated in another currency: ETH (registered; users 0 and 1 really own 5e10 of it, user 3 owns none), an
+// unknown name, the empty string — for create, fund and withdraw.  Everything must be refused without any effect: the
+// fund store is denominated in OLT
+func c14ScriptCurrency() *c14Case {
+	r := c14NewRun("currency")
+	h := r.beginBlock()
+	r.doCreate(2, 2, "2000000000", h+6, h+6+c14VDelta[2], "10000000000", int64(c14Pass[2]), "", true) // p0 in OLT
+	r.doCreate(2, 2, "2000000000", h+6, h+6+c14VDelta[2], "10000000000", int64(c14Pass[2]), "", true) // p1 in OLT, cancelled below
+	anyOk := false
+	last := func() bool { return r.c.Ops[len(r.c.Ops)-1].Ok }
+	for _, cur := range []string{"ETH", "XYZ", ""} {
+		for _, who := range []int{0, 3} { // owner of ETH, non-owner
+			c14WithCur(cur, func() {
+				r.doCreate(2, who, "2000000000", h+6, h+6+c14VDelta[2], "10000000000", int64(c14Pass[2]), "", true)
+				anyOk = anyOk || last()
+				r.doFund(0, who, "3000000000")
+				anyOk = anyOk || last()
+			})
+		}
+	}
+	r.doCancel(1, 2)
+	r.endBlock()
+	r.beginBlock()
+	for _, cur := range []string{"ETH", "XYZ", ""} {
+		c14WithCur(cur, func() {
+			r.doWithdraw(1, 2, "1000000000", 0) // the funder asks for the refund in another currency
+			anyOk = anyOk || last()
+		})
+	}
+	c14WithCur("ETH", func() {
+		r.doFund(0, 1, "8000000000") // would bring p0 to its goal
+		anyOk = anyOk || last()
+	})
+	r.doWithdraw(1, 2, "2000000000", 2)
+	o := r.endBlock()
+	r.c.Notes["currency_non_olt_accepted"] = anyOk
+	r.c.Notes["currency_p0_untouched"] = o.Props[0] != nil && o.Props[0].Total == "2000000000" && o.Props[0].Status == 0
+	r.beginBlock()
+	r.endBlock()
+	return r.finish()
+}
+
 // a full honest life: create, fund to the goal, vote yes, automatic finalisation (config update applied), and a failing one
 func c14ScriptLife() *c14Case {
 	r := c14NewRun("life")
@@ -1511,7 +1645,7 @@ func c14CoqOp(o c14Op) string {
 	if o.Env >= 0 {
 		env = fmt.Sprintf("e%d", o.Env)
 	}
-	return fmt.Sprintf("HOp (mkTx (%s) %s %d%%N %s)", op, env, o.Payer, c14Z(o.Fee))
+	return fmt.Sprintf("HOp (mkTx (%s) %s %d%%N %s %d%%N)", op, env, o.Payer, c14Z(o.Fee), o.Cur)
 }
 
 func c14Bools(bs []bool) string {
@@ -1540,11 +1674,15 @@ func c14CoqObs(o c14Obs) string {
 		ps = append(ps, fmt.Sprintf("Some (mkPO %d %d %d %d %d %s %s %s %s %s [%s] [%s])", p.Stores, p.Status, p.Outcome, p.Type, p.Proposer,
 			c14Zi(p.Fdl), c14Zi(p.Vdl), c14Z(p.Goal), c14Zi(p.Pass), c14Z(p.Total), strings.Join(iv, "; "), strings.Join(vv, "; ")))
 	}
+	fl := []string{}
+	for _, f := range o.Flows {
+		fl = append(fl, fmt.Sprintf("(%s, %s)", c14Z(f[0]), c14Z(f[1])))
+	}
 	bs := []string{}
 	for _, b := range o.Bal {
 		bs = append(bs, c14Z(b))
 	}
-	return fmt.Sprintf("mkSO %s [%s] [%s] %s %v %s %v", c14Zi(o.H), strings.Join(ps, "; "), strings.Join(bs, "; "), c14Z(o.Pool), o.Anom, c14Bools(o.Applied), o.Reload)
+	return fmt.Sprintf("mkSO %s [%s] [%s] %s %v %s %v [%s]", c14Zi(o.H), strings.Join(ps, "; "), strings.Join(bs, "; "), c14Z(o.Pool), o.Anom, c14Bools(o.Applied), o.Reload, strings.Join(fl, "; "))
 }
 
 func c14WriteCoq(path string, cases []*c14Case, na int) {
@@ -1608,7 +1746,7 @@ func c14Main(args []string) int {
 	fs.Parse(args)
 
 	cases := []*c14Case{}
-	builders := []func() *c14Case{c14ScriptE11, c14ScriptLife, c14ScriptNegative, c14ScriptDrift, c14ScriptGoal(true), c14ScriptGoal(false), c14ScriptOptions, c14ScriptFinFail, c14ScriptRelaunch}
+	builders := []func() *c14Case{c14ScriptE11, c14ScriptLife, c14ScriptNegative, c14ScriptDrift, c14ScriptGoal(true), c14ScriptGoal(false), c14ScriptOptions, c14ScriptFinFail, c14ScriptRelaunch, c14ScriptCurrency}
 	for i := 0; i < *n; i++ {
 		ci := i
 		builders = append(builders, func() *c14Case { return c14Random(*seed, ci, *nb) })
